@@ -211,7 +211,7 @@ impl Check for C05 {
         tier.pick(std::time::Duration::from_secs(150), std::time::Duration::from_secs(1500))
     }
     fn required_counters(&self, _tier: Tier) -> Vec<&'static str> {
-        vec!["outcome:value", "outcome:split", "outcome:merged", "terminal:Timeout", "terminal:Finished", "callers:cancelled", "duplicate-responder-sequences", "retry:reads-below-quorum", "retry:reads-reaching-quorum"]
+        vec!["outcome:value", "outcome:split", "outcome:merged", "terminal:Timeout", "terminal:Finished", "callers:cancelled", "duplicate-responder-sequences", "retry:reads-below-quorum", "retry:reads-reaching-quorum", "retry:reads-expecting-a-version-no-holder-has"]
     }
     fn lane_cases(&self, tier: Tier) -> u64 {
         tier.pick(8, 64)
@@ -517,7 +517,10 @@ fn retry_case(cx: &mut Cx) {
     use ant_protocol::storage::RetryStrategy;
     let mut cs = ClientSim::new(&mut cx.rng);
     let kind = if cx.rng.gen_bool(0.5) { Kind::Chunk } else { Kind::Pad };
-    let v = make_versions(cx, kind, 1);
+    // two cases in five: the caller expects a version the holders do not have (a put verifying itself against stale
+    // holders); every attempt must then be judged against that expectation, not only the first
+    let targeted = cx.rng.gen_bool(0.4);
+    let v = make_versions(cx, kind, if targeted { 2 } else { 1 });
     let quorum = match cx.rng.gen_range(0..3) {
         0 => Quorum::Majority,
         1 => Quorum::All,
@@ -527,9 +530,10 @@ fn retry_case(cx: &mut Cx) {
     let attempts = cx.rng.gen_range(2..=4usize);
     let strategy = if cx.rng.gen_bool(0.3) { RetryStrategy::Quick } else { RetryStrategy::N(NonZeroUsize::new(attempts).expect("nz")) };
     // holders answering in attempt i (the same peers 0..h every time)
-    let below = cx.rng.gen_bool(0.7);
+    let below = !targeted && cx.rng.gen_bool(0.7);
     let holders_per_attempt: Vec<usize> = (0..6).map(|i| if below { cx.rng.gen_range(1..q) } else if i == 0 && cx.rng.gen_bool(0.5) { cx.rng.gen_range(1..q) } else { cx.rng.gen_range(q..=q + 2) }).collect();
-    let cfg = GetRecordCfg { get_quorum: quorum, retry_strategy: Some(strategy), target_record: None, expected_holders: Default::default(), is_register: false };
+    let target_record = if targeted { Some(gen::record(v.key.clone(), v.bytes[1].clone())) } else { None };
+    let cfg = GetRecordCfg { get_quorum: quorum, retry_strategy: Some(strategy), target_record, expected_holders: Default::default(), is_register: false };
     let (network, key) = (cs.sim.nodes[cs.ci].network.clone(), v.key.clone());
     let h = cs.sim.spawn(async move { network.get_record_from_network(key, &cfg).await });
     let value = v.bytes[0].clone();
@@ -556,6 +560,15 @@ fn retry_case(cx: &mut Cx) {
     cx.count(if reached { "retry:reads-reaching-quorum" } else { "retry:reads-below-quorum" });
     cx.nontrivial(&("retry", q, format!("{strategy:?}"), &holders_per_attempt[..asked.min(6)]));
     let w = json!({"quorum": q, "strategy": format!("{strategy:?}"), "holders_answering_per_attempt": &holders_per_attempt[..asked.min(6)], "attempts_made": asked});
+    if targeted {
+        cx.count("retry:reads-expecting-a-version-no-holder-has");
+        match cs.sim.rt.block_on(h) {
+            Ok(Ok(r)) if r.value != v.bytes[1] => cx.violation("value-differs-from-expected-target:in-a-later-attempt", format!("a retrying read that expects another version returned what the holders have after {asked} attempt(s)"), w),
+            Err(e) => cx.violation("caller-task-died", format!("{e}"), w),
+            _ => cx.sample(w),
+        }
+        return;
+    }
     match cs.sim.rt.block_on(h) {
         Ok(Ok(_)) if !reached => cx.violation("value-without-quorum:holders-counted-again-across-retries", format!("a read with quorum {q} succeeded although no attempt saw more than {} distinct holders ({asked} attempts)", holders_per_attempt.iter().take(asked.max(1)).max().copied().unwrap_or(0)), w),
         Ok(Err(_)) if reached && holders_per_attempt.iter().take(asked).last().map(|n| *n >= q).unwrap_or(false) => cx.violation("quorum-reached-but-read-failed", format!("the last attempt saw {q} or more agreeing holders, yet the read failed"), w),
